@@ -272,6 +272,52 @@ Theorem C09_model_passes_merge_checker : forall i H V l, valid i -> eh i <= H <=
 Proof. exact model_passes_check_merge_desc. Qed.
 Print Assumptions C09_model_passes_merge_checker.
 
+(* ================================================================ call histories *)
+(* The property quantifies over every history of calls. The four MODELS keep no state: the answers of a history are `map run_call`, so every
+   call is answered as it is answered on its own, whatever was called before (valid calls, failing calls, the same or related arguments),
+   and the same call made twice is answered twice the same. This is the justification for judging every step of a CallHistory case exactly
+   like a standalone case; for the CODE it is not a theorem — it is what the CallHistory cases check (one caller, reused objects and
+   buffers, optional scribbling over its inputs and results, failing calls in between). *)
+Theorem C09_calls_do_not_depend_on_history : forall (m_tan m_cos m_log : pfloat -> pfloat) h i c,
+  nth_error h i = Some c -> nth_error (run_history m_tan m_cos m_log h) i = Some (run_call m_tan m_cos m_log c).
+Proof. exact history_is_stateless. Qed.
+Print Assumptions C09_calls_do_not_depend_on_history.
+Theorem C09_repeated_call_same_answer : forall (m_tan m_cos m_log : pfloat -> pfloat) before between after c,
+  nth_error (run_history m_tan m_cos m_log (before ++ c :: between ++ c :: after)) (List.length before) =
+  nth_error (run_history m_tan m_cos m_log (before ++ c :: between ++ c :: after)) (List.length before + 1 + List.length between)%nat.
+Proof. exact repeated_call_same_answer. Qed.
+Print Assumptions C09_repeated_call_same_answer.
+(* the zoom-in / zoom-out clause inside any history *)
+Theorem C09_zoom_in_then_out_in_any_history : forall (m_tan m_cos m_log : pfloat -> pfloat) before between after i H V,
+  valid i -> eh i <= H <= 35 -> ev i <= V <= 35 ->
+  exists mid,
+    nth_error (run_history m_tan m_cos m_log (before ++ CallChange [print_eid i] H V :: between ++ CallChange mid (eh i) (ev i) :: after))
+              (List.length before) = Some (ResIds (Ok mid)) /\
+    nth_error (run_history m_tan m_cos m_log (before ++ CallChange [print_eid i] H V :: between ++ CallChange mid (eh i) (ev i) :: after))
+              (List.length before + 1 + List.length between)%nat = Some (ResIds (Ok [print_eid i])).
+Proof. exact zoom_in_out_in_any_history. Qed.
+Print Assumptions C09_zoom_in_then_out_in_any_history.
+(* the run-time side: in a CallHistory case every step is judged as the same step on its own, and a history verdict with prop = true means
+   that every step's own verdict has prop = true *)
+Theorem C09_history_steps_judged_independently : forall oracle steps obss i st ob,
+  nth_error steps i = Some st -> nth_error obss i = Some ob -> nth_error (judge_history oracle steps obss) i = Some (d_step oracle st ob).
+Proof. exact history_steps_independent. Qed.
+Print Assumptions C09_history_steps_judged_independently.
+Theorem C09_verdict_history : forall oracle b steps obss,
+  v_prop (d_history oracle [VB b; VL steps] (VL obss)) = true ->
+  List.length steps = List.length obss /\
+  forall i st ob, nth_error steps i = Some st -> nth_error obss i = Some ob -> v_prop (d_step oracle st ob) = true.
+Proof. exact d_history_verdict. Qed.
+Print Assumptions C09_verdict_history.
+(* non-vacuity: a concrete history — a failing call (zoom 36), the valid call, an unrelated overlap check, the failing call again, the valid
+   call again, a merge with a malformed member *)
+Example C09_history_example :
+  run_history (fun x => x) (fun x => x) (fun x => x)
+    [CallChange ["3/1/1/3/-8"%string] 36 2; CallChange ["3/1/1/3/-8"%string] 3 2; CallOverlap "4/14/6/25/101" "5/28/12/24/50";
+     CallChange ["3/1/1/3/-8"%string] 36 2; CallChange ["3/1/1/3/-8"%string] 3 2; CallMerge ["3/1/1/3/-8"%string; "3/1/b/3/-8"%string] 3 2]
+  = [ResIds Err; ResIds (Ok ["3/1/1/2/-4"%string]); ResBool (Ok true); ResIds Err; ResIds (Ok ["3/1/1/2/-4"%string]); ResIds Err].
+Proof. exact history_example. Qed.
+
 (* ================================================================ non-vacuity *)
 (* the guards of the point theorems are satisfiable (with a constant stand-in for libm: tan = 0, cos = 1, log = 0, so m = 1; that Go's
    libm satisfies the guard on real latitudes is checked at run time, not proved) *)
